@@ -39,11 +39,15 @@ class XYCostFunction_Chi2(CostFunction_Chi2):
         if axes_to_use.lower() == "y":
             self._COV_MAT_CHOLESKY_NAME = "y_total_cov_mat_cholesky"
             self._COV_MAT_QR_NAME = "y_total_cov_mat_qr"
+            self._COV_MAT_LOG_DETERMINANT_NAME = "y_total_cov_mat_log_determinant"
             self._ERROR_NAME = "y_total_error"
+            self._ERROR_SQUARED_LOG_SUM_NAME = "y_total_error_squared_log_sum"
         elif axes_to_use.lower() == "xy":
             self._COV_MAT_CHOLESKY_NAME = "total_cov_mat_cholesky"
             self._COV_MAT_QR_NAME = "total_cov_mat_qr"
+            self._COV_MAT_LOG_DETERMINANT_NAME = "total_cov_mat_log_determinant"
             self._ERROR_NAME = "total_error"
+            self._ERROR_SQUARED_LOG_SUM_NAME = "total_error_squared_log_sum"
         else:
             raise ValueError("Unknown value '%s' for 'axes_to_use': must be one of ('xy', 'y')")
         super(XYCostFunction_Chi2, self).__init__(
